@@ -173,14 +173,14 @@ def gen_spec(rng, cfg, doc, depth):
 
 
 # ---------------------------------------------------------------------------------------------
-def build(doc, objs=None):
+def build(doc, objs=None, classes=None):
     """-> (root element, {class name: class}) — fresh objects on every call.
     If `objs` is a dict it is filled with id(spec dict) -> the live object built from it."""
     from statham.schema import elements as E
     from statham.schema.elements import Object
     from statham.schema.property import Property
 
-    classes = {}
+    classes = classes if classes is not None else {}      # pre-seeded: reuse these live classes
 
     def prop(p):
         kw = {"required": p["required"]}
@@ -319,16 +319,23 @@ def _has_default(doc, spec):
 
 
 def merged_class(doc, name):
-    """The flat equivalent of a class: inherited keywords and properties merged (child wins)."""
+    """The flat equivalent of a class: inherited keywords and properties merged (child wins).
+    A docstring becomes the description only when no description was passed or inherited
+    (Object.__init_subclass__), so the flat class carries the effective description as a keyword."""
     spec = doc["classes"][name]
     if not spec.get("base"):
-        return {"k": "Obj", "name": name, "base": None, "kw": dict(spec["kw"]), "props": dict(spec["props"]), "doc": spec.get("doc")}
+        kw = dict(spec["kw"])
+        if "description" not in kw and spec.get("doc"):
+            kw["description"] = spec["doc"]
+        return {"k": "Obj", "name": name, "base": None, "kw": kw, "props": dict(spec["props"]), "doc": None}
     parent = merged_class(doc, spec["base"])
     kw = dict(parent["kw"])
     kw.update(spec["kw"])
+    if "description" not in kw and spec.get("doc"):
+        kw["description"] = spec["doc"]
     props = dict(parent["props"])
     props.update(spec["props"])
-    return {"k": "Obj", "name": name, "base": None, "kw": kw, "props": props, "doc": spec.get("doc") or None}
+    return {"k": "Obj", "name": name, "base": None, "kw": kw, "props": props, "doc": None}
 
 
 def _class_schema(doc, name, _stack):
